@@ -67,7 +67,7 @@ def catalogue(s):
         elif n["t"] == "res":
             D.append({"k": "headpat", "n": nn})
             D.append({"k": "as_tank", "n": nn})
-    for k in ("pdd", "pddmin", "mult2", "mult05", "pstart1h", "pstart90m", "hyd30", "hyd15all", "pat30", "pat2h", "rep2h",
+    for k in ("pdd", "pddmin", "pddhi", "mult2", "mult05", "pstart1h", "pstart90m", "hyd30", "hyd15all", "pat30", "pat2h", "rep2h",
               "piecewise", "clock3h", "revorder", "interp", "defpat", "lateopts"):
         D.append({"k": k})
     return D
@@ -190,6 +190,8 @@ def apply(s, d):
         return s
     if k == "pdd":
         o.update(dm="PDD", pmin=0.0, preq=30.0, pexp=0.5)
+    elif k == "pddhi":         # a required pressure above every available pressure: partial delivery everywhere
+        o.update(dm="PDD", pmin=0.0, preq=60.0, pexp=0.5)
     elif k == "pddmin":        # a non-zero global minimum pressure
         o.update(dm="PDD", pmin=8.0, preq=30.0, pexp=0.5)
     elif k == "mult2":
@@ -252,7 +254,7 @@ def compatible(d1, d2):
         return True
     if "l" not in d1 and "n" not in d1 and "l" not in d2 and "n" not in d2:
         grp = lambda d: {"mult2": "m", "mult05": "m", "pstart1h": "ps", "pstart90m": "ps", "hyd30": "h", "hyd15all": "h", "interp": "h",
-                         "pat30": "p", "pat2h": "p", "rep2h": "r", "pdd": "pdd", "pddmin": "pdd"}.get(d["k"], d["k"])
+                         "pat30": "p", "pat2h": "p", "rep2h": "r", "pdd": "pdd", "pddmin": "pdd", "pddhi": "pdd"}.get(d["k"], d["k"])
         if grp(d1) == grp(d2):
             return False
         if {d1["k"], d2["k"]} == {"hyd15all", "rep2h"}:
